@@ -1342,7 +1342,13 @@ accepted generated program by driver op `C07.prog`:
     a `map<struct with files>` and must be legal file names, audit M3) has
     STATICALLY KNOWN LEGAL KEYS: every split argument is a map literal with
     legal keys (`staticLegalKeys`; lemma `fork_keys_static`). Map calls over
-    run-time maps of callables without file-typed outputs carry no condition.)
+    run-time maps of callables without file-typed outputs carry no condition;
+  * NO REFERENCE IS COMPOSED INTO AN UNTYPED MAP (`umapPipe`, §13): a binding into
+    a type containing the untyped `map` is reference-free, or a bare reference to
+    an output of a stage that is not map-called with static keys, or a bare
+    reference to an input of the top pipeline.  This stands in for what the model
+    does NOT model: `MakePipelineCallGraph` composes bindings across pipeline
+    boundaries and refuses references inside untyped maps (N1, F-C07-UMAP).)
 
 For every program `P` (pipeline definitions) with top-level call `top` that the
 compiler's rules accept – `validTop`, `validPipelineU` of every definition,
@@ -1571,5 +1577,80 @@ example :
     deliveredT Γ { self := [(km, .obj [(kSlash, .str kx)])], calls := [] } (.base .file) (.split (.self km [])) =
       some [.str kx] :=
   ⟨by decide, by decide, by decide, rfl⟩
+
+/-! ### 13. what the whole-program theorem does NOT model: composed bindings (audit pass 2, N1)
+
+The program of the second audit pass (TestAud2SplitNestedMergeUntypedMap):
+
+    pipeline INNER(in map<int> xs, out map<int> r) { map call ECHO(what = split self.xs)  return (r = ECHO.r) }
+    pipeline P(out map[] r) { call GEN()  map call INNER(xs = split GEN.r)
+                              map call CONS(what = split INNER.r)  return (r = CONS.r) }      -- CONS(in map what)
+
+is accepted by the compile-time rules, satisfied EVERY hypothesis of
+`program_sound_partial` as of round 7, and the model's checked run delivers
+`[{"k":1},{"l":2}]` – while the real mrp PANICKED in `TopNode.resolveMerge`
+("invalid type for merge …: map"), and its variant `map[] what = INNER.r` could
+not be invoked.  Cause: the run time never materialises `INNER.r`; the bindings
+are composed across the pipeline boundary into a merge expression which a
+second, type-directed resolver resolves.  Repaired in the code (db7ffe5,
+5969c07: with forks known at run time both programs now run, replayed by
+harness/c07_merge.go in Tier A); with STATICALLY known forks the merge is
+expanded to a map literal of references, which the resolver refuses inside an
+untyped map by design (known finding F-C07-UMAP).  The model does not model the
+composition; `progOk` now EXCLUDES (conservatively, `umapPipe`) every binding
+into a type containing the untyped `map` whose composed form can be such a
+literal – this program among them. -/
+private abbrev n1Kwhat : Bytes := [0x77]
+private abbrev n1Kres : Bytes := [0x72]
+private abbrev n1Kxs : Bytes := [0x78]
+private abbrev n1NGEN : Bytes := [0x47]
+private abbrev n1NECHO : Bytes := [0x45]
+private abbrev n1NCONS : Bytes := [0x43]
+private abbrev n1NINNER : Bytes := [0x49]
+private abbrev n1NP : Bytes := [0x50]
+private abbrev n1TMI : Ty := .tmap (.base .int)
+private abbrev n1StGEN : Callee := { name := n1NGEN, isStage := true, params := [], outs := .cons n1Kres (.arr n1TMI) .nil }
+private abbrev n1StECHO : Callee := { name := n1NECHO, isStage := true, params := [(n1Kwhat, .base .int)], outs := .cons n1Kres (.base .int) .nil }
+private abbrev n1StCONS : Callee := { name := n1NCONS, isStage := true, params := [(n1Kwhat, .base .map)], outs := .cons n1Kres (.base .map) .nil }
+private abbrev n1PINNER : Pipeline :=
+  { name := n1NINNER, ins := [(n1Kxs, n1TMI)], outs := .cons n1Kres n1TMI .nil,
+    calls := [{ id := n1NECHO, callee := n1StECHO, binds := [(n1Kwhat, .split (.self n1Kxs []))], wild := none, mods := noMods }],
+    ret := [(n1Kres, .plain (.call n1NECHO [n1Kres]))], retWild := none, retain := [] }
+private abbrev n1PP : Pipeline :=
+  { name := n1NP, ins := [], outs := .cons n1Kres (.arr (.base .map)) .nil,
+    calls := [
+      { id := n1NGEN, callee := n1StGEN, binds := [], wild := none, mods := noMods },
+      { id := n1NINNER, callee := n1PINNER.callee, binds := [(n1Kxs, .split (.call n1NGEN [n1Kres]))], wild := none, mods := noMods },
+      { id := n1NCONS, callee := n1StCONS, binds := [(n1Kwhat, .split (.call n1NINNER [n1Kres]))], wild := none, mods := noMods }],
+    ret := [(n1Kres, .plain (.call n1NCONS [n1Kres]))], retWild := none, retain := [] }
+private abbrev n1Prog : Prog := { pipes := [n1PINNER, n1PP] }
+private abbrev n1Top : CallStm := { id := n1NP, callee := n1PP.callee, binds := [], wild := none, mods := noMods }
+/-- GEN returns `[{"k":1},{"l":2}]`, ECHO and CONS return their input -/
+private abbrev n1Oracle : Oracle := fun name ins =>
+  if name == n1NGEN then .obj [(n1Kres, .arr [.obj [([0x6B], .num (.int 1))], .obj [([0x6C], .num (.int 2))]])]
+  else .obj [(n1Kres, (ins.lookup n1Kwhat).getD .null)]
+
+/-- NEGATIVE WITNESS for the model (not for the theorem): every compile-time rule
+and every hypothesis of rounds 5–7 holds (`okPipe` of both pipelines, `validTop`,
+`okStm` of the top-level call, `fits`), the model's checked run succeeds – and
+the only thing that now keeps the program out of `program_sound_partial` is the
+hypothesis about composed bindings (`umapPipe`: `what = split INNER.r` binds an
+output of a nested PIPELINE to an untyped map). -/
+theorem n1_program_outside_model :
+    n1Prog.pipes.all (okPipe n1Prog) = true ∧ validTop n1Top = true ∧
+    (match checkStm emptyEnv n1Top with | some sh => okStm n1Prog emptyEnv n1Top sh | none => false) = true ∧
+    fits n1Prog 3 n1Top.callee = true ∧
+    (runProgram n1Prog n1Oracle 3 n1Top).map (fun s => s.2.calls) =
+      .ok [(n1NP, .obj [(n1Kres, .arr [.obj [([0x6B], .num (.int 1))], .obj [([0x6C], .num (.int 2))]])])] ∧
+    umapPipe n1Prog true n1PP = false ∧ progOk n1Prog n1Top = false :=
+  ⟨by decide, by decide, by decide, by decide, rfl, by decide, by decide⟩
+
+/-- the same consumer bound to an output of a STAGE (`what = split GEN.r`, which the
+real `Path` resolves since ffee4be) stays inside the theorem -/
+example :
+    let pP' : Pipeline := { n1PP with calls := [
+      { id := n1NGEN, callee := n1StGEN, binds := [], wild := none, mods := noMods },
+      { id := n1NCONS, callee := n1StCONS, binds := [(n1Kwhat, .split (.call n1NGEN [n1Kres]))], wild := none, mods := noMods }] }
+    progOk { pipes := [pP'] } { n1Top with callee := pP'.callee } = true := by decide
 
 end Props.C07
